@@ -16,3 +16,5 @@ import RenetVerif.Lemmas.SrcEquiv.RecvUnrel
 import RenetVerif.Lemmas.SrcEquiv.SendRel
 import RenetVerif.Lemmas.SrcEquiv.RecvRel
 import RenetVerif.Lemmas.SrcEquiv.NcPacket
+import RenetVerif.Lemmas.SrcEquiv.NcAddr
+import RenetVerif.Lemmas.SrcEquiv.NcConnToken
